@@ -7,6 +7,7 @@ from .. import paths
 from ..core import FUNC, call_attr, calls_in, const, dotted, is_const, kwarg, norm, slice_parts, text, walk_local
 
 EXPLANATION = [
+    'C14.jacobian-z: every _JacobianPoint(...) construction passes z explicitly (the default z=0 is the point at infinity) and the generator is built with z=1.',
     'C14.public-key-siblings: EccKey.y of the pure-Python back end is computed exactly like EccKey.x (the other coordinate of the same generate_public_key result), not recovered through a square root.',
     'C14.jacobian-double: in the pure-Python back end _JacobianPoint.double returns the point at infinity exactly under `self.z == 0 or self.y == 0`: x does not take part in the degenerate test.',
     'C14.dh-validates: in both back ends every return of EccKey.dh follows the validated ECDH computation on the coordinates it was given (path rule), and dh stores nothing on the key object (no result cache that could answer before validation).',
@@ -621,7 +622,27 @@ def public_key_siblings(ctx):
     R.check(same and any('generate_public_key' in b for b in by) and not any('pow(' in b for b in by), rule, 'bumble.crypto.builtin.EccKey.y', 'the y coordinate of the same generate_public_key result x comes from', 'EccKey.y is not computed like EccKey.x (the other coordinate of the same scalar multiplication): a y recovered from the curve equation is one of two square roots, so for about half of all private keys the public key is -d*G and differs from the library back end and from the specification samples', p.loc(fy))
 
 
+def jacobian_z(ctx):
+    """z = 0 is the point at infinity and the class default: every _JacobianPoint built from coordinates says what z is, and
+    the curve's generator is built with z = 1."""
+    R, p = ctx.r, ctx.p
+    rule = 'C14.jacobian-z'
+    m = p.modules.get(B)
+    if m is None:
+        R.bad(rule, B, 'anchor missing')
+        return
+    n = 0
+    for c in [x for x in ast.walk(m.tree) if isinstance(x, ast.Call) and call_attr(x) == '_JacobianPoint']:
+        n += 1
+        z = kwarg(c, 'z', 3)
+        R.check(z is not None, rule, f'{p.qual_of(c)} | {norm(c)[:50]}', 'z given', f'`{norm(c)[:70]}` leaves z at its default 0: the point is the point at infinity whatever x and y are, every multiple of it is infinity too (all public keys / shared secrets degenerate)', f'{m.rel}:{c.lineno}')
+        if z is not None and 'g_x' in norm(c):
+            R.check(is_const(z) and const(z) == 1, rule, f'{p.qual_of(c)} | generator', 'z = 1', f'the generator is built with z = {norm(z)}', f'{m.rel}:{c.lineno}')
+    R.check(n >= 5, rule, f'{B} | _JacobianPoint constructions', f'{n}', f'only {n} found')
+
+
 RULES = [
+    ('C14.jacobian-z', jacobian_z),
     ('C14.public-key-siblings', public_key_siblings),
     ('C14.jacobian-double', jacobian_double),
     ('C14.dh-validates', dh_validates),
